@@ -45,14 +45,22 @@ def eval_sensor(t: Table, s, full, seed, stats):
         if s.offset > 0:
             placements.append(('own-1', Table(t.family, t.name, [s], 'modbus', start=s.offset - 1, length=n + (n % 2) + 2)))
     for pname, tab in placements:
-        for transport in (('rtu', 'tcp') if (pname == 'own' and tab.mode == 'modbus') else ('rtu',)):
+        for transport in (('rtu', 'tcp', 'tcp-len=bytecount', 'tcp-len=0') if (pname == 'own' and tab.mode == 'modbus') else
+                          ('rtu', 'tcp-len=bytecount') if (pname == 'table' and tab.mode == 'modbus' and not full) else ('rtu',)):
             for variant in ((0, 1, 2) if pname == 'table' and not full else (0,)):
                 ctx = context(tab.nbytes, seed, variant)
                 resp = tab.response(bytes(ctx), transport)
                 pos = tab.byte_pos(s)
                 vals = own_values(s, full and pname == 'table' and variant == 0)
+                fresh = transport.startswith('tcp-len')      # built anew per value: the header field must be re-read
+                if fresh:
+                    vals = own_values(s, False)
                 for b in vals:
-                    poke(resp, pos, b)
+                    if fresh:
+                        ctx[pos:pos + len(b)] = b
+                        resp = tab.response(bytes(ctx), transport)
+                    else:
+                        poke(resp, pos, b)
                     got = read_outcome(s, resp)
                     ref = refdec.decode(s, b)
                     stats[0] += 1
